@@ -179,7 +179,7 @@ NOT_APPLICABLE = {}
 
 # decidable per-operation forms of the properties (coq/Model/Monitors.v), evaluated on the implementation's observed
 # snapshots: they turn a broken correspondence into a concrete failing history
-for _k, _m in {"C10": "mon_C10", "C02": "mon_C02", "C09": "mon_C09", "C12": "mon_C12", "C13": "mon_C13", "C03": "mon_C03", "C04": "mon_C04", "C06": "mon_C06", "C08": "mon_C08r", "C11": "mon_C11",
+for _k, _m in {"C10": "mon_C10", "C07": "mon_C07", "C02": "mon_C02", "C09": "mon_C09", "C12": "mon_C12", "C13": "mon_C13", "C03": "mon_C03", "C04": "mon_C04", "C06": "mon_C06w", "C08": "mon_C08r", "C11": "mon_C11",
                "C14": "mon_C14s", "C15": "mon_C15r", "C16": "mon_C16c", "C17": "mon_C17", "C20": "mon_C20"}.items():
     PROPS[_k]["monitor"] = _m
 
@@ -194,8 +194,8 @@ _EXTRA = {
  "C01": "OVER HISTORIES (ExcessLedger.v, C01_excess_is_exactly_donations_plus_odd_units): after any history of the core pool operations (swaps, routes, withdrawals, unlocked deposits of one or several assets, deposits of two or more assets locked in the farm manager - a nested contract call -, bank sends, block changes, faults, rejected operations) the excess in every non-LP denom is EXACTLY the initial excess plus the ledger, whose entries are only plain bank sends to the contract and the single unit of accepted odd single-asset deposits (kernel-evaluated example included). THE EXCESS CLAUSE is also proved transaction by transaction as exact equalities on (balance - reserves), per denom (TxExcess.v, theorems C01_excess_through_a_swap / _route / _withdrawal / _deposit / _single_asset_deposit / _donation): a swap or a withdrawal leaves the excess exactly unchanged (unless the trader names the pool manager itself as receiver or the owner made it its own fee collector), a first deposit adds exactly the minimum liquidity in the LP denom, an unlocked single-asset deposit adds exactly (amount mod 2) in the deposit denom - the odd unit -, a bank send adds what was sent. The same equalities for locked deposits and pool creations are checked on the implementation by mon_C04 / mon_C01x.",
  "C17": "The frame is also proved for WHOLE TRANSACTIONS (FrameChain.v, C17_accepted_transactions_are_unaffected_by_the_switches): by a relational induction over the chain interpreter (call trees, the swap -> reply -> deposit chain of single-asset provisions, locked deposits calling the farm manager, replies, tolerated refund failures), a pool operation or any transaction to another contract that is accepted both before and after the switches of a pool were changed has exactly the same effect on the whole world - every balance, every contract state - up to the changed switches.",
  "C10": "Monitor mon_C10 on the implementation (the whole LP_WEIGHT_HISTORY is observed): every position operation moves the latest weight of the position's owner and of the contract by calculate_weight(amount, position's duration) - saturating at zero on removals -, nothing else moves any latest weight, closing a closed position is never accepted, only addresses with an open position in an LP denom have weight entries for it. A user without open positions in an LP denom has no weight in it: after closing a position or withdrawing an open one, if no open position of the user in that denom is left, every weight entry of his for it is gone and his weight is 0 in every epoch (Reconcile.v, C10_no_weight_without_open_positions_after_close / _after_withdrawal). Added: C10_total_and_user_move_together_unless_a_subtraction_saturates - every weight change moves the contract total and the user's own weight by the same amount, so total - user (the weight of everybody else) is preserved except when a subtraction saturates at zero, which is exactly the class of finding F-sat.",
- "C07": "SCHEDULE INDEPENDENCE proved farm by farm and epoch by epoch (ClaimSplit.v, C07_one_claim_pays_what_two_claims_pay): the per-epoch rewards of a single claim at u2 are the concatenation of those of a claim at any intermediate epoch u1 and of the later claim at u2 computed on the state the first claim leaves (weight history synchronised at u1, farm's claimed amount increased), under explicit hypotheses that delimit the class outside the findings (all weight entries of the user in [cursor, u1+1]; the contract's history starts at or before cursor+1; budget respected); kernel-evaluated example. Lifted to all farms of one LP denom (C07_one_claim_pays_what_two_claims_pay_per_lp_denom) and END TO END to the Claim message for users staking one LP denom (ClaimTwice.v, C07_claiming_twice_pays_what_claiming_once_pays: Claim up to u1, then Claim up to u2 in any later world, send the user coin denom by coin denom exactly what the single Claim up to u2 sends; the intermediate state is derived from the first claim, the budget bound from the success of the single claim; kernel-evaluated example 262 + 262 = 524). The same END-TO-END theorem is proved for users staking ANY number of LP denoms (C07_claiming_twice_pays_what_claiming_once_pays_any_number_of_lp_denoms; claim_loop_post frames each step of the walk over the denoms against the others). Proved: the Rewards query equals what an immediate Claim pays for users staking ANY number of LP tokens, in every world reachable from genesis (C07_rewards_query_equals_claim_for_any_number_of_lp_tokens / _in_every_reachable_world; ClaimFrame.v: the claim's walk through the LP denoms is framed denom by denom - weight history and farm budgets of one denom do not influence the rewards of another; farm identifiers are unique by the custody invariant).",
- "C06": "Over all histories: C06_payouts_never_exceed_funding_in_any_reachable_world (recorded payouts of every farm of every reachable world stay within its funding; with C05 no claim can draw on another farm's or a position's funds). Monitor mon_C06 on the implementation.",
+ "C07": "Monitor mon_C07 on the implementation (weights, farms and cursors observed): in the class covered by the theorems (the user has a cursor c, none of his weight entries for the LP denoms he stakes is older than c, the contract's history for them starts at or before c+1) an accepted Claim pays, per coin denom, exactly the sum over the farms and epochs (c, u] of floor(rate * weight in effect / total weight in effect) computed from the observed weight table by plain carry-forward. SCHEDULE INDEPENDENCE proved farm by farm and epoch by epoch (ClaimSplit.v, C07_one_claim_pays_what_two_claims_pay): the per-epoch rewards of a single claim at u2 are the concatenation of those of a claim at any intermediate epoch u1 and of the later claim at u2 computed on the state the first claim leaves (weight history synchronised at u1, farm's claimed amount increased), under explicit hypotheses that delimit the class outside the findings (all weight entries of the user in [cursor, u1+1]; the contract's history starts at or before cursor+1; budget respected); kernel-evaluated example. Lifted to all farms of one LP denom (C07_one_claim_pays_what_two_claims_pay_per_lp_denom) and END TO END to the Claim message for users staking one LP denom (ClaimTwice.v, C07_claiming_twice_pays_what_claiming_once_pays: Claim up to u1, then Claim up to u2 in any later world, send the user coin denom by coin denom exactly what the single Claim up to u2 sends; the intermediate state is derived from the first claim, the budget bound from the success of the single claim; kernel-evaluated example 262 + 262 = 524). The same END-TO-END theorem is proved for users staking ANY number of LP denoms (C07_claiming_twice_pays_what_claiming_once_pays_any_number_of_lp_denoms; claim_loop_post frames each step of the walk over the denoms against the others). Proved: the Rewards query equals what an immediate Claim pays for users staking ANY number of LP tokens, in every world reachable from genesis (C07_rewards_query_equals_claim_for_any_number_of_lp_tokens / _in_every_reachable_world; ClaimFrame.v: the claim's walk through the LP denoms is framed denom by denom - weight history and farm budgets of one denom do not influence the rewards of another; farm identifiers are unique by the custody invariant).",
+ "C06": "Monitor mon_C06w on the implementation: claimed <= funded for every farm after every step, and - in the class of the C07 theorems - no accepted Claim pays MORE than the weight share computed from the observed weight table (which is what keeps an epoch's payouts within its emission). Over all histories: C06_payouts_never_exceed_funding_in_any_reachable_world (recorded payouts of every farm of every reachable world stay within its funding; with C05 no claim can draw on another farm's or a position's funds). Monitor mon_C06 on the implementation.",
 }
 for _k, _t in _EXTRA.items():
     PROPS[_k]["level_text"] = (PROPS[_k]["level_text"] or "") + " " + _t
